@@ -1,5 +1,6 @@
 CONSTANT Peers = {1, 2, 3, 4, 5, 6}
-CONSTANT Heights = {1, 2, 3, 4, 5, 6, 7, 8, 9, 10, 11, 12, 13, 14, 15, 16, 17, 18, 19, 20}
+CONSTANT Up = {1, 2, 3, 4, 5, 6, 7, 8, 9, 10, 11, 12, 13, 14, 15, 16, 17, 18, 19, 20}
+CONSTANT Down = {11, 12, 13, 14, 15}
 CONSTANT Window = 10
 CONSTANT MaxEv = 100000
 CONSTANT DupValidated = "block"
